@@ -1604,7 +1604,11 @@ class ConfigList(UserList):
             finished = False
             while not finished:
                 idx += 1
-                cobj = self.data[idx]
+                try:
+                    cobj = self.data[idx]
+                except IndexError:
+                    # unterminated macro; stop at the end of the config
+                    break
                 # blank_line_keep for original ciscoconfpasre Github Issue #229
                 cobj.blank_line_keep = True
                 cobj.parent = pobj
